@@ -87,14 +87,19 @@ def stop():
     return r
 
 
-def _wrap(cls, name, before=None, after=None):
+def _wrap(cls, name, before=None, after=None, on_error=None):
     orig = getattr(cls, name)
 
     @functools.wraps(orig)
     def w(self, *a, **k):
         r = _REC[0]
         tok = before(r, self, a, k) if (r is not None and before) else None
-        res = orig(self, *a, **k)
+        try:
+            res = orig(self, *a, **k)
+        except Exception as ex:  # noqa: BLE001
+            if r is not None and on_error:
+                on_error(r, self, a, k, ex, tok)
+            raise
         if r is not None and after:
             after(r, self, a, k, res, tok)
         return res
@@ -271,11 +276,17 @@ def install():
         if not had:
             return      # the method returned at its first line: no transition
         started = self.nominal_filter is not tok["f"]
-        r.emit("BeginAdaptive", t=T(self.simulation_id), at=r.idx(self.time), ok=bool(started), nobs=len(a[0]),
-               old_flags=r.fproj(tok["f"])["flags"], conv=bool(FilterFlag.ADAPTIVE_ESTIMATION_CLOSE in self.nominal_filter.flags),
+        r.emit("BeginAdaptive", t=T(self.simulation_id), at=r.idx(self.time), ok=bool(started), nobs=len(a[0]), crashed=False,
+               old_kind=r.fproj(tok["f"])["kind"], conv=bool(FilterFlag.ADAPTIVE_ESTIMATION_CLOSE in self.nominal_filter.flags),
                **r.fproj(self.nominal_filter))
 
-    _wrap(EstimateAgent, "_beginAdaptiveEstimation", before_begin, after_begin)
+    def error_begin(r, self, a, k, ex, tok):
+        # the attempt raised: logged as a BeginAdaptive that the specification has to explain
+        r.emit("BeginAdaptive", t=T(self.simulation_id), at=r.idx(self.time), ok=False, nobs=len(a[0]), crashed=True,
+               old_kind=r.fproj(tok["f"])["kind"], conv=False, error=f"{type(ex).__name__}: {ex}"[:200],
+               **r.fproj(self.nominal_filter))
+
+    _wrap(EstimateAgent, "_beginAdaptiveEstimation", before_begin, after_begin, error_begin)
 
     def before_mmae(r, self, a, k):
         return None
